@@ -213,7 +213,7 @@ pub fn run(prop: &str, tier: Tier) -> (RunMeta, Acc) {
                 prop,
                 tier.name(),
                 "exploration",
-                "hook counters (entries into convert_expr/convert_pattern/convert_markup_impl/convert_math) are read after every format call and compared with the number of syntax nodes (conversions ≤ 2·nodes + 8); corpus and generators at widths {0,40,80,120,2^40}; depth ladders 1..256 for 20 pure wrapper families and seed-chosen mixed nestings (a ladder stops at its first violation); secondary monitors: bytes allocated per call vs input+output size, CPU growth along ladders; distinct = input hash / ladder point; non-trivial = ≥ 20 syntax nodes",
+                "hook counters (entries into convert_expr/convert_pattern/convert_markup_impl/convert_math) are read after every format call and compared with the number of syntax nodes (conversions ≤ 2·nodes + 8); corpus and generators at widths {0,40,80,120,2^40}; depth ladders 1..256 for 24 pure wrapper families and seed-chosen mixed nestings, and flat families (n-term chains, n-call dot chains, n items/args/statements/lines/rows/cells, n = 1..1024) (a ladder stops at its first violation); secondary monitors: bytes allocated per call vs input+output size, CPU growth along ladders; distinct = input hash / ladder point; non-trivial = ≥ 20 syntax nodes",
             );
             let cfgs: Vec<Cfg> = [0usize, 40, 80, 120, fmtx::W_INF].iter().map(|&w| Cfg::new(w, 2, false)).collect();
             let mut parts = vec![Part::new(std.base_list(), usize::MAX, usize::MAX, fixed())];
@@ -241,6 +241,17 @@ pub fn run(prop: &str, tier: Tier) -> (RunMeta, Acc) {
                 })
                 .collect();
             for a in accs {
+                acc.merge(a);
+            }
+            let wide_accs: Vec<Acc> = (0..gen::WIDE_FAMILIES)
+                .into_par_iter()
+                .map(|f| {
+                    let mut a = Acc::new();
+                    p_perf::run_wide(f, &widths, &mut a);
+                    a
+                })
+                .collect();
+            for a in wide_accs {
                 acc.merge(a);
             }
             meta.assumptions = vec![
